@@ -57,7 +57,10 @@ def gen():
     # macro: assignment with auto-update off, immediately followed by a targeted update (then sometimes a full update)
     probe = st.tuples(st.integers(0, 50), st.integers(0, 40), st.lists(st.integers(0, 200), min_size=1, max_size=2), st.booleans()).map(
         lambda t: [["auto", False], ["assign", t[0], t[1], "node"], ["update_names", t[2]]] + ([["update"]] if t[3] else []))
-    block = st.one_of(op.map(lambda o: [o]), op.map(lambda o: [o]), probe)
+    # macro: a state saved while nodes are outdated is restored after the model was brought up to date, then a full update follows directly
+    probe2 = st.tuples(st.integers(0, 50), st.integers(0, 40)).map(
+        lambda t: [["auto", False], ["assign", t[0], t[1], "node"], ["save"], ["update"], ["restore", -1], ["update"]])
+    block = st.one_of(op.map(lambda o: [o]), op.map(lambda o: [o]), op.map(lambda o: [o]), probe, probe2)
     ops = st.lists(block, min_size=1, max_size=24).map(lambda bl: [o for b in bl for o in b][:40])
     return st.fixed_dictionaries({"spec": gg.spec_strategy(), "ops": ops, "entry": st.sampled_from(["builder", "builder", "model"])})
 
